@@ -331,7 +331,9 @@ def run(ctx):
     lcf = [c for c in calls_in(bc) if last_attr(c) == '_load_config_files']
     if len(lcf) != 1:
         raise AnalysisError('build_config: _load_config_files call not found')
-    parg = next((k.value for k in lcf[0].keywords if k.arg == 'path'), lcf[0].args[1] if len(lcf[0].args) > 1 else None)
+    _lf_params = [a.arg for a in repo.func(CFGM + ':_load_config_files').args.args]
+    _pname = _lf_params[1] if len(_lf_params) > 1 else 'path'
+    parg = next((k.value for k in lcf[0].keywords if k.arg == _pname), lcf[0].args[1] if len(lcf[0].args) > 1 else None)
     if parg is None:
         raise AnalysisError('build_config: no search path is handed to _load_config_files')
 
